@@ -219,6 +219,103 @@ pub fn history_core<F: Family>(input: &Input, ctx: &mut Ctx, oracles: u8) -> Cas
     Ok(())
 }
 
+
+// ---------------------------------------------------------------------------------------
+// byte sequences as string content: "valid UTF-8 strings" decided for every short sequence
+
+const U3_THIRD: [u8; 8] = [0x80, 0xBF, 0x7F, 0xC0, 0x00, 0xFF, 0xA0, 0x9F];
+const U4_THIRD: [u8; 7] = [0x80, 0xBF, 0x7F, 0xC0, 0x00, 0x90, 0x8F];
+const U4_FOURTH: [u8; 4] = [0x80, 0xBF, 0x7F, 0xC0];
+
+/// number of sequences in the sweep: all 1- and 2-byte sequences; 3-byte sequences with lead E0..EF, any second byte
+/// and (full: any / reduced: 8 boundary) third bytes; 4-byte sequences with lead F0..F7, any second byte and boundary
+/// third / fourth bytes
+pub fn utf8_seq_count(full: bool) -> u64 {
+    256 + 65_536 + 16 * 256 * if full { 256 } else { U3_THIRD.len() as u64 } + 8 * 256 * (U4_THIRD.len() * U4_FOURTH.len()) as u64
+}
+
+pub fn utf8_seq(full: bool, mut i: u64) -> Vec<u8> {
+    if i < 256 {
+        return vec![i as u8];
+    }
+    i -= 256;
+    if i < 65_536 {
+        return vec![(i >> 8) as u8, i as u8];
+    }
+    i -= 65_536;
+    let thirds = if full { 256 } else { U3_THIRD.len() as u64 };
+    if i < 16 * 256 * thirds {
+        let third = i % thirds;
+        let rest = i / thirds;
+        return vec![0xE0 + (rest / 256) as u8, (rest % 256) as u8, if full { third as u8 } else { U3_THIRD[third as usize] }];
+    }
+    i -= 16 * 256 * thirds;
+    let f = i % U4_FOURTH.len() as u64;
+    let r = i / U4_FOURTH.len() as u64;
+    let t = r % U4_THIRD.len() as u64;
+    let r = r / U4_THIRD.len() as u64;
+    vec![0xF0 + ((r / 256) % 8) as u8, (r % 256) as u8, U4_THIRD[t as usize], U4_FOURTH[f as usize]]
+}
+
+/// frames that carry `seq` inside text fields: a v3.1.1 CONNECT whose client id is 'a' seq 'b', and a v5 PUBLISH
+/// with a user property whose name is seq and whose value is 'v' seq
+pub fn utf8_frames(seq: &[u8]) -> (Vec<u8>, Vec<u8>) {
+    let mut cid = vec![b'a'];
+    cid.extend_from_slice(seq);
+    cid.push(b'b');
+    let mut body = vec![0, 4, b'M', b'Q', b'T', b'T', 4, 2, 0, 0, 0, cid.len() as u8];
+    body.extend_from_slice(&cid);
+    let mut f3 = vec![0x10, body.len() as u8];
+    f3.extend_from_slice(&body);
+    let mut prop = vec![0x26, 0, seq.len() as u8];
+    prop.extend_from_slice(seq);
+    prop.extend_from_slice(&[0, seq.len() as u8 + 1, b'v']);
+    prop.extend_from_slice(seq);
+    let mut body = vec![0, 1, b't', prop.len() as u8];
+    body.extend_from_slice(&prop);
+    let mut f5 = vec![0x30, body.len() as u8];
+    f5.extend_from_slice(&body);
+    (f3, f5)
+}
+
+/// nums = [full (0/1), start, count]
+fn case_utf8(input: &Input, ctx: &mut Ctx) -> CaseResult {
+    let n = input.nums();
+    let full = n[0] == 1;
+    let (mut good, mut bad) = (0u64, 0u64);
+    for i in n[1]..n[1] + n[2] {
+        let seq = utf8_seq(full, i);
+        let (f3, f5) = utf8_frames(&seq);
+        let want = std::str::from_utf8(&seq).is_ok();
+        for (k, lab) in [(decide::<V3>(&f3, ctx), "v3 CONNECT client id"), (decide::<V5>(&f5, ctx), "v5 PUBLISH user property")] {
+            let lab = match k {
+                Ok(Some(l)) => l,
+                Ok(None) => viol!("MQV-INTERNAL: the UTF-8 sweep built a frame outside the domain ({} with {})", lab, hex_short(&seq, 8)),
+                Err(v) => {
+                    ctx.refine = Some((if lab.starts_with("v3") { "c04.frame.v3" } else { "c04.frame.v5" }, Input::Bytes(if lab.starts_with("v3") { f3.clone() } else { f5.clone() })));
+                    return Err(Violation::new(format!("{} containing the bytes {}: {}", lab, hex_short(&seq, 8), v.msg)));
+                }
+            };
+            ensure!((lab == "accept") == want, "MQV-INTERNAL: reference decoder and std disagree on the bytes {} ({})", hex_short(&seq, 8), lab);
+        }
+        if want {
+            good += 1;
+        } else {
+            bad += 1;
+        }
+    }
+    ctx.more_evals((n[2] * 2).saturating_sub(1));
+    ctx.count_distinct(n[2] * 2);
+    ctx.label_n("utf8:well-formed", good);
+    ctx.label_n("utf8:ill-formed", bad);
+    if n[1] == 0 {
+        ctx.sample(|| "every 1- and 2-byte sequence, 3-byte sequences with lead E0..EF, 4-byte sequences with lead F0..F7 as string content of a v3 CONNECT client id and a v5 user property".to_string());
+    }
+    Ok(())
+}
+
+pub const SUB_UTF8: Sub = Sub { name: "c04.utf8-sequences", f: case_utf8 };
+
 pub const SUB_H3: Sub = Sub { name: "c04.history.v3", f: case_history::<V3> };
 pub const SUB_H5: Sub = Sub { name: "c04.history.v5", f: case_history::<V5> };
 /// nums = [first byte, remaining length, start, count]: a block of exhaustively enumerated short frames
@@ -245,7 +342,7 @@ pub const SUB_B3: Sub = Sub { name: "c04.frame.v3", f: case_bytes::<V3> };
 pub const SUB_B5: Sub = Sub { name: "c04.frame.v5", f: case_bytes::<V5> };
 
 pub fn subs() -> Vec<Sub> {
-    vec![SUB_V3, SUB_V5, SUB_B3, SUB_B5, SUB_H3, SUB_H5, SUB_X3, SUB_X5]
+    vec![SUB_V3, SUB_V5, SUB_B3, SUB_B5, SUB_H3, SUB_H5, SUB_X3, SUB_X5, SUB_UTF8]
 }
 
 /// hand-assembled frames: the defects repaired by 284f652 / 2d36388 and the pinned leniencies
@@ -277,6 +374,11 @@ pub fn run(env: &mut Env) -> RunResult {
     let sb2 = sb.clone();
     env.run_enum(SUB_X3, kb, true, move |i| sb2[i as usize].clone())?;
     env.run_enum(SUB_X5, kb, true, move |i| sb[i as usize].clone())?;
+    let full = env.thorough();
+    let total = utf8_seq_count(full);
+    env.run_enum(SUB_UTF8, total.div_ceil(4_096), true, move |i| Input::Nums(vec![full as u64, i * 4_096, 4_096.min(total - i * 4_096)]))?;
+    env.require("c04.utf8-sequences", "utf8:well-formed");
+    env.require("c04.utf8-sequences", "utf8:ill-formed");
     let n = env.tier.sel(40_000, 500_000);
     env.run_tapes(SUB_V3, n, 160)?;
     env.run_tapes(SUB_V5, n * 2, 260)?;
